@@ -7,7 +7,18 @@ def n(q, t):
     return {Q: q, T: t}
 
 
+UDP_TB = ["model Model/UDP.lean of service/udp.go (packetHandler.Handle, validatePacket, natmap, timedCopy) tied by the `udp` differential campaign on the real handler with real sockets in a private netns",
+          "cryptography is a contract: which keys open a datagram and the plaintext come from an independent spec-level implementation in the harness (speccrypto.go)",
+          "Gen/Consts.lean, Gen/Ciphers.lean, Gen/PrivateNets.lean regenerated from source"]
+UDP_AS = ["SDK contract: shadowsocks.Pack(key, p) = salt ‖ seal(key, p) with a fresh random salt; Unpack opens exactly what Pack/the client sealed under the same key",
+          "kernel contract: a socket from net.ListenPacket has a local port distinct from all open sockets; loopback delivery is in order"]
+
 CHECKS = {
+    "C03": dict(
+        level="proof",
+        campaigns=[dict(engine="udp", n=n(150, 3000), netns=True)],
+        trusted_base=UDP_TB, assumptions=UDP_AS,
+    ),
     "C05": dict(
         level="proof",
         campaigns=[dict(engine="ip", n=n(100000, 5000000))],
